@@ -283,8 +283,10 @@ def rescue_rate(ctx, binp, fams=None):
                     d["denied"] += 1 if (not x["granted"] and x["n"] <= k[1]) else 0
         path, _ = ctx.write_cases(name + ".ndjson", cases)
         ctx.samples += core.sample_of(cases, 1)
+        # 64-128 servers side by side: outages as dropped connections only, so that no port is ever released
+        # (a released port is easily grabbed by a neighbour; Close/Restart outages are covered by the other families)
         c, _ = ctx.replay(PKG, OVERLAY, "^TestVerifC08Token$", path, label=name, shards=(4 if ctx.quick else 8), binp=binp,
-                          env=dict(VERIF_PAR=16))
+                          env=dict(VERIF_PAR=16, VERIF_DROPALL=1))
         for k, n in c.items():
             cnt[k] = cnt.get(k, 0) + n
     if len(ctx.disagreements) == before:                  # vacuity guards only when nothing disagrees
